@@ -288,6 +288,44 @@ pub fn inverse(a: &[Vec<DD>]) -> Option<Vec<Vec<DD>>> {
     Some(m.into_iter().map(|r| r[n..].to_vec()).collect())
 }
 
+/// log2 |det a| of a square matrix: Gaussian elimination with partial pivoting in double-double on
+/// the matrix renormalised by a power of two (largest entry in [1,2)), summing the logarithms of the
+/// pivots — so the determinant itself (which may be 2^-1200) is never formed. None: singular.
+pub fn log2_abs_det(a: &[Vec<DD>]) -> Option<f64> {
+    let n = a.len();
+    let amax = a.iter().flatten().fold(0.0f64, |m, v| m.max(v.hi.abs()));
+    if !(amax > 0.0 && amax.is_finite()) {
+        return None;
+    }
+    let e = ilog2(amax);
+    let mut m: Vec<Vec<DD>> = a.iter().map(|r| r.iter().map(|v| v.scale2(-e)).collect()).collect();
+    let mut acc = 0.0f64;
+    for k in 0..n {
+        let mut p = k;
+        for i in k + 1..n {
+            if m[i][k].hi.abs() > m[p][k].hi.abs() {
+                p = i;
+            }
+        }
+        if m[p][k].hi == 0.0 {
+            return None;
+        }
+        m.swap(k, p);
+        let piv = m[k][k];
+        acc += piv.hi.abs().log2();
+        for i in k + 1..n {
+            if !m[i][k].is_zero() {
+                let f = m[i][k].div(piv);
+                for j in k..n {
+                    let t = f.mul(m[k][j]);
+                    m[i][j] = m[i][j].sub(t);
+                }
+            }
+        }
+    }
+    Some(acc + (n as f64) * (e as f64))
+}
+
 pub fn dd_mat(a: &[Vec<f64>]) -> Vec<Vec<DD>> {
     a.iter().map(|r| r.iter().map(|v| DD::from(*v)).collect()).collect()
 }
@@ -355,6 +393,17 @@ pub fn self_test() -> Result<(), String> {
                 }
             }
         }
+    }
+    // log2 |det| against exact integer determinants, also far outside the f64 range of the product
+    let t4 = vec![vec![2.0, -1.0, 0.0, 0.0], vec![-1.0, 2.0, -1.0, 0.0], vec![0.0, -1.0, 2.0, -1.0], vec![0.0, 0.0, -1.0, 2.0]];
+    let l = log2_abs_det(&dd_mat(&t4)).ok_or("log2 det self-test: singular")?;
+    if (l - 5f64.log2()).abs() > 1e-12 {
+        return Err(format!("log2 det self-test: det Toeplitz4 = 5, got 2^{}", l));
+    }
+    let tiny: Vec<Vec<f64>> = t4.iter().map(|r| r.iter().map(|v| ldexp(*v, -400)).collect()).collect();
+    let l = log2_abs_det(&dd_mat(&tiny)).ok_or("log2 det self-test: singular")?;
+    if (l - (5f64.log2() - 1600.0)).abs() > 1e-9 {
+        return Err(format!("log2 det self-test: scaled determinant, got 2^{}", l));
     }
     Ok(())
 }
